@@ -175,7 +175,8 @@ def _reference_base(c, base_obs, extras):
 
 
 def check_field(ctx, c, tp, extras, key, case, quiet, scripted, same_geom):
-    """compare the finished problem with the spec's field record (see module docstring)"""
+    """compare the finished problem with the spec's field record (see module docstring); False: the parameter dimension is
+    not the stated one (reported) and the caller cannot use the spec's parameter vectors on this object"""
     import cuqi
     from cuqi.geometry import MappedGeometry
     from cuqiverif.core import MachineryError
@@ -226,11 +227,11 @@ def check_field(ctx, c, tp, extras, key, case, quiet, scripted, same_geom):
         fshape = tuple(dg.fun_shape)
     except Exception as e:      # noqa: BLE001
         ctx.mismatch(sig("pardim"), case, "dimensions of the domain geometry / prior cannot be read: %r" % (e,))
-        return
+        return False
     if any(v != pardim for v in dims.values()) or fshape != (n,):
         ctx.mismatch(sig("pardim"), case, "parameter dimension of domain geometry / model / prior / posterior (or the function shape) is not the one "
                      "the field options state", expected={"par_dim": pardim, "fun_shape": (n,)}, observed=dict(dims, fun_shape=fshape))
-        return
+        return False            # (the spec's parameter vectors do not fit this object: nothing further is compared)
     # ---- the one (mapped) geometry everywhere
     for who, g in (("posterior", getattr(tp.posterior, "geometry", None)), ("likelihood", getattr(tp.likelihood, "geometry", None)),
                    ("exactSolution", getattr(tp.exactSolution, "geometry", None))):
@@ -314,6 +315,7 @@ def check_field(ctx, c, tp, extras, key, case, quiet, scripted, same_geom):
         fy = _qv(f["fy"])
         if not _close(yex, fy, rtol=1e-9, atol=1e-11):
             ctx.mismatch(sig("exactdata"), case, "exactData is not the solution operator applied to the given exactSolution (function values)", fy, yex)
+    return True
 
 
 def check_coverage(ctx):
